@@ -16,6 +16,11 @@ import types
 import hy
 
 NAMES = ("x", "y")
+# parameter kinds: Hy lambda list, Python parameter list, Hy call arguments, Python call arguments
+PARAM_KINDS = {
+    "posonly": ("{} /", "{}, /", "{1}", "{1}"), "plain": ("{}", "{}", "{1}", "{1}"), "default": ("[{} 0]", "{}=0", "{1}", "{1}"),
+    "kwonly": ("* {}", "*, {}", ":{0} {1}", "{0}={1}"), "rest": ("#* {}", "*{}", "{1}", "{1}"), "kwargs": ("#** {}", "**{}", ":k {1}", "k={1}"),
+}
 
 
 # ---------------------------------------------------------------------------------------------------------------
@@ -31,6 +36,11 @@ def to_hy(t, ind=0):
         return f"((fn [] {body_hy(t[1])}))"
     if k == "defn":
         return f"(do (defn {t[1]} [] {body_hy(t[2])}) ({t[1]}))"
+    if k == "defnp":
+        # a function whose parameter (of the given kind) binds the name
+        _, fname, pname, pkind, val, body = t
+        ll, _, call, _ = PARAM_KINDS[pkind]
+        return f"(do (defn {fname} [{ll.format(pname)}] {body_hy(body)}) ({fname} {call.format(pname, val)}))"
     if k == "class":
         return f"(defclass {t[1]} [] {body_hy(t[2])})"
     if k == "setv":
@@ -61,6 +71,10 @@ def to_hy(t, ind=0):
         # the iterable is the variable of the same name in the enclosing scope
         # (a generator expression: CPython 3.12.0-3.12.3 mis-compile the inlined list comprehension here, see below)
         return f'(list (gfor {t[1]} [{t[1]}] (do (LOGV "{t[1]}" {t[1]}) 0)))'
+    if k == "lfor2x":
+        # two clauses: the first iterable names the variable of the enclosing scope, a *later* clause uses the same name as its
+        # iteration variable
+        return f'(list (gfor hv_i [{t[1]}] {t[1]} [hv_i] (do (LOGV "{t[1]}" {t[1]}) 0)))'
     if k == "lfor":
         # only the iteration variable is logged inside (by value: CPython 3.12.0-3.12.3 mis-compile a lambda that captures
         # the iteration variable of an inlined comprehension when the enclosing function has a free variable of that name)
@@ -146,6 +160,16 @@ def to_py(prog):
                         emit(f"{fname}()", ind)
                     if k != "fn":
                         note(pyscope, fname)
+                elif k == "defnp":
+                    _, fname, pname, pkind, val, body2 = t
+                    _, pyll, _, pycall = PARAM_KINDS[pkind]
+                    emit(f"def {fname}({pyll.format(pname)}):", ind)
+                    inner_scope = pyscope + (("fn", me),)
+                    note(inner_scope, pname)                 # a parameter is a variable the function binds
+                    # (the parameter shadows a let binding of the same name for the whole function body)
+                    go(body2, env + [{"<fn>": True, pname: (pname, inner_scope)}], ind + 1, inner_scope)
+                    emit(f"{fname}({pycall.format(pname, val)})", ind)
+                    note(pyscope, fname)
                 elif k == "call":
                     r = resolve(t[1], env)
                     emit(f"{r[0] if r else t[1]}()", ind)
@@ -201,6 +225,14 @@ def to_py(prog):
                         if target is None and n in assigned.get((), ()):
                             target = "global"
                         emit(f"{target or 'nonlocal'} {n}", ind)      # no binding at all: Python's own SyntaxError
+                elif k == "lfor2x":
+                    r = resolve(t[1], env)
+                    emit(f"def _lf{me}(it):", ind)
+                    emit("for hv_i in it:", ind + 1)
+                    emit(f"for {t[1]} in [hv_i]:", ind + 2)
+                    emit(f"LOGV({t[1]!r}, {t[1]})", ind + 3)
+                    emit("yield 0", ind + 3)
+                    emit(f"list(_lf{me}([{r[0] if r else t[1]}]))", ind)
                 elif k == "lforx":
                     # the first iterable of a comprehension is evaluated in the enclosing scope
                     r = resolve(t[1], env)
@@ -304,6 +336,8 @@ def spine_programs(levels, pre_opts, post_opts, inner_opts, wrap_function=False)
                         yield pre_s + (("fn", rest),) + post_s
                     elif kind[0] == "defn":
                         yield pre_s + (("defn", f"f{i}", rest),) + post_s
+                    elif kind[0] == "defnp":
+                        yield pre_s + (("defnp", f"f{i}", kind[1], kind[2], v(), rest),) + post_s
                     elif kind[0] == "later":      # closure defined now, variable reassigned, closure called afterwards
                         yield pre_s + (("def", f"g{i}", rest), ("setv", kind[1], v()), ("call", f"g{i}")) + post_s
                     elif kind[0] == "class":
@@ -312,6 +346,8 @@ def spine_programs(levels, pre_opts, post_opts, inner_opts, wrap_function=False)
                         yield pre_s + (("lfor", kind[1], v(), NAMES),) + rest + post_s
                     elif kind[0] == "lforx":
                         yield pre_s + (("lforx", kind[1]),) + rest + post_s
+                    elif kind[0] == "lfor2x":
+                        yield pre_s + (("lfor2x", kind[1]),) + rest + post_s
                     elif kind[0] == "let2":       # one let binding the same name twice, a closure captured in between
                         n = kind[1]
                         node = ("let", ((n, v()), (f"c{i}", ("closure", n)), (n, v())), rest + (("call", f"c{i}"),) + post_s)
